@@ -395,3 +395,33 @@ Proof.
   intros b Hb. destruct (encode_exact_repo_tables b Hb) as [H1 H2].
   split; [eauto|]. split; [eauto|]. rewrite decode_spec_proof. eauto.
 Qed.
+
+(* --- what exactly happens with a table that marks '%' but not '+' (DataURIEncodingTable) --------------- *)
+Definition plus_to_space (c : Z) : Z := if c =? 43 then 32 else c.
+
+Lemma unescape_encode_ref_plus t b :
+  tbl t 37 = Some true -> tbl t 43 = Some false -> Forall is_byte b ->
+  unescape (encode_ref t b) = map plus_to_space b.
+Proof.
+  intros H37 H43 Hb. induction Hb as [|c b Hc _ IH]; [reflexivity|].
+  cbn [encode_ref flat_map map]. unfold enc1. destruct (tbl t c) as [[|]|] eqn:E.
+  - cbn [app]. rewrite unescape_escape by assumption. unfold plus_to_space at 1.
+    replace (c =? 43) with false by (destruct (Z.eqb_spec c 43); [congruence|reflexivity]). f_equal. exact IH.
+  - cbn [app]. assert (c <> 37) by congruence. cbn [unescape]. replace (c =? 37) with false by lia.
+    unfold plus_to_space at 1. destruct (c =? 43); f_equal; exact IH.
+  - cbn [app]. assert (c <> 37) by congruence. cbn [unescape]. replace (c =? 37) with false by lia.
+    unfold plus_to_space at 1. destruct (c =? 43); f_equal; exact IH.
+Qed.
+
+Lemma decode_encode_datauri_table_proof :
+  forall b, Forall is_byte b ->
+    exists r, encode_url b Tables.datauri_encoding_table = Ok r /\ decode_url r = Ok (map plus_to_space b).
+Proof.
+  intros b Hb. destruct datauri_table_facts as (Ht & Hst & H37 & H43).
+  exists (encode_ref Tables.datauri_encoding_table b). split.
+  - apply encode_exact_proof; assumption.
+  - rewrite decode_spec_proof. f_equal. apply unescape_encode_ref_plus; assumption.
+Qed.
+
+Lemma decode_not_longer_proof : forall b r, decode_url b = Ok r -> len r <= len b.
+Proof. intros b r H. rewrite decode_spec_proof in H. injection H as <-. apply unescape_len. Qed.
